@@ -4,15 +4,15 @@ from ..stage import LineStage, replay_line
 from .common import *
 from . import c05, c06
 
-ARTEFACTS = ["G1-consts", "G3-arith", "G3b-regions", "G9-update", "G23-c-wide", "G26-asm-abi", "G31-asm-avx512-compress-wgnu", "G32-asm-sse41-compress-wgnu", "G33-asm-sse2-compress-wgnu"]
-EXTRA_PROPS = [("B3.Props.C01T", "B3/Props/C01T.lean"), ("B3.Props.C06W", "B3/Props/C06W.lean"), ("B3.Props.C07A", "B3/Props/C07A.lean"), ("B3.Props.C05W", "B3/Props/C05W.lean"), ("B3.Props.C05BW", "B3/Props/C05BW.lean")]   # theorems about the code translated from the sources
+ARTEFACTS = ["G1-consts", "G3-arith", "G3b-regions", "G9-update", "G23-c-wide", "G26-asm-abi", "G31-asm-avx512-compress-wgnu", "G32-asm-sse41-compress-wgnu", "G33-asm-sse2-compress-wgnu", "G34-asm-sse41-hash-many", "G44-asm-sse41-hash-many-wgnu"]
+EXTRA_PROPS = [("B3.Props.C01T", "B3/Props/C01T.lean"), ("B3.Props.C06W", "B3/Props/C06W.lean"), ("B3.Props.C07A", "B3/Props/C07A.lean"), ("B3.Props.C05W", "B3/Props/C05W.lean"), ("B3.Props.C05BW", "B3/Props/C05BW.lean"), ("B3.Props.C05MW", "B3/Props/C05MW.lean")]   # theorems about the code translated from the sources
 RULE = ("the C05 kernel calls and the C06 API histories run in harness/c, where every input ends flush against a PROT_NONE page, every "
         "output is produced once flush against an upper and once flush after a lower guard page with 0xAA canaries on the open side, "
         "the working copy of the hasher is itself flush against a guard page, and every assembly routine (System V and Windows-GNU) is "
         "called through a trampoline that plants sentinels in all callee-saved registers of its ABI and checks them, rsp, DF and the "
         "MXCSR control bits on return; the model predicts plain hex output, so any CANARY / REGS / FAULT / MISMATCH / MUTATED / SAN "
         "flag is a difference; `CK align` repeats the assembly kernel calls with the stack pointer at each of the four 16-byte positions of a 64-byte line; `CK hmanysep` gives every hash_many input its own guarded buffer (not adjacent to the next input); CK dirty 1|2 adds garbage in the unused upper bits of narrow arguments of the Windows-GNU kernels (registers and stack slots); thorough also runs "
-        "the ASan+UBSan build; non-trivial = every kernel call / API history; distinct = distinct script")
+        "larger samples; a clang AddressSanitizer + UndefinedBehaviorSanitizer build of the library runs API histories (incl. update(NULL, 0)) and the intrinsics / portable kernels in both tiers; non-trivial = every kernel call / API history; distinct = distinct script")
 ASSUMPTIONS = ["Miri cannot execute SIMD intrinsics or FFI: the unsafe Rust kernels are covered by the output canaries of harness/rs K ops only",
                "memory and register behaviour is observed on the inputs run, not proved"]
 NOT_PROVED = ["machine-level behaviour of kernels (memory footprint, registers): observed against the model's prediction, not proved"]
@@ -24,6 +24,7 @@ def stages(tier, seed, witness_search=False):
     ops = c05.single_ops(rng, "CK", c05.C_SYMS, k) + c05.many_ops(rng, "CK", c05.C_SYMS, k // 2)
     kscripts = [Script([o], tags=(" ".join(o.split(" ")[:3]),)) for o in ops]
     api = [c06.history(rng, PLATFORMS[i % 5], rng.randrange(1, 16), 60 * 1024) for i in range(150 if tier == "quick" else 3000)]
+    api += c06.null_update_scripts(rng)
     # hash_many with every input in its own buffer, flush against its own guard page (inputs NOT adjacent)
     sep = []
     for sym in c05.C_SYMS:
@@ -43,6 +44,10 @@ def stages(tier, seed, witness_search=False):
     st = [LineStage("c-kernels-guarded", kscripts, impl="c"), LineStage("c-api-guarded", api, impl="c"),
           LineStage("c-hash-many-separate-inputs", sep, impl="c", max_minimise=40),
           LineStage("c-asm-stack-alignments", aligned, impl="c"),
+          # the library under AddressSanitizer + UndefinedBehaviorSanitizer (clang): API histories incl. the NULL empty update, and
+          # the intrinsics / portable kernels (a sanitizer report is the ` SAN` flag)
+          LineStage("c-sanitizers", (api[:40] if tier == "quick" else api) + c06.null_update_scripts(rng)
+                    + [sc for sc in kscripts if "_asm" not in sc.ops[0]][:(150 if tier == "quick" else 5000)], impl="c_asan"),
           LineStage("c-win-dirty-narrow-args", c05.win_dirty_scripts(rng, 20 if tier == "quick" else 600), impl="c"),
           LineStage("rs-kernels-canary", [Script([o], tags=("K",)) for o in rs_ops], features=("pure",))]
     # "write only the requested output plus the hasher object itself": no writable static storage besides the detection cache
@@ -56,4 +61,4 @@ def replay(d, lean_exe):
         return dict(still_fails=False, note="re-run the check: the scan lists writable symbols of the C objects")
     if d.get("stage", "").startswith("rs-"):
         return replay_line(d, lean_exe, features=("pure",))
-    return replay_line(d, lean_exe, impl="c")
+    return replay_line(d, lean_exe, impl="c_asan" if d.get("stage") == "c-sanitizers" else "c")
